@@ -16,7 +16,9 @@ import (
 // never panic or hang.
 // ---------------------------------------------------------------------------
 
-var yamlJunk = []string{"[]", "{}", "null", "~", `""`, "x", "1", "[1]", "[1, 2]", "[[]]", "[{}]", "{a: 1}", "{1: {}}", "- 1", "!!binary aGk=", "&a 1", "[x, {}]", "{\"@type\": x}", "0x1F", "1e400"}
+var yamlJunk = []string{"[]", "{}", "null", "~", `""`, "x", "1", "[1]", "[1, 2]", "[[]]", "[{}]", "{a: 1}", "{1: {}}", "- 1", "!!binary aGk=", "&a 1", "[x, {}]", "{\"@type\": x}", "0x1F", "1e400",
+	// anchors and aliases, also an alias inside the node its own anchor marks (yaml.v3 builds the cycle)
+	"&b [1, *b]", "&c {k: *c}", "&d [{ID: 1}, *d]", "*nowhere", "&e [1, 2]", "[&f 1, *f]"}
 
 func mutateYAMLData(r *rand.Rand, text string) string {
 	lines := strings.Split(text, "\n")
